@@ -57,8 +57,15 @@ func c20CheckKill(t vh.Fataler, rec *vh.Rec, root string, c c20Case) {
 	if msg := res.c20HarnessTrouble(); msg != "" {
 		t.Fatalf("harness problem: %s", msg)
 	}
-	for i, e := range res.doneErr {
-		t.Fatalf("harness problem: store %d (%v) failed in a healthy directory: %s", i, c.Ops[i], e)
+	// A store that fails although the directory is healthy is not ours to explain (reported as harness
+	// trouble at the end) and the model of "what was stored" is no longer known after it (the partial
+	// setters need not roll back), but the file must at least still exist and parse.
+	spurious := ""
+	for i := 0; i < len(c.Ops); i++ {
+		if e, bad := res.doneErr[i]; bad {
+			spurious = fmt.Sprintf("store %d (%v) failed in a healthy directory: %s", i, c.Ops[i], e)
+			break
+		}
 	}
 	inFlight := res.lastStart > res.lastDone
 	// model: configuration after the last completed store, and of the store in flight
@@ -102,6 +109,8 @@ func c20CheckKill(t vh.Fataler, rec *vh.Rec, root string, c c20Case) {
 		got := &pb.ClientConf{}
 		perr := proto.Unmarshal(file, got)
 		switch {
+		case perr == nil && spurious != "":
+			// parses; equality cannot be judged
 		case perr == nil && proto.Equal(got, cur):
 			if inFlight {
 				classes = append(classes, "observed:new", classes[2]+":observed-new")
@@ -123,6 +132,8 @@ func c20CheckKill(t vh.Fataler, rec *vh.Rec, root string, c c20Case) {
 		}
 		rec.Violation(t, "kill:"+form, c, "process killed %s (kill point: start %d + %d µs): %s is neither allowed configuration; allowed: %s",
 			state, c.KillAt, c.KillUs, verdict, want)
+	} else if spurious != "" {
+		t.Fatalf("harness problem: %s (the file still parses; what it should equal is not known after that)", spurious)
 	}
 }
 
